@@ -371,7 +371,7 @@ class Language(object):
     def parse_type(self, value: str | Iterator[str]) -> TypeInstance:
         if isinstance(value, str):
             consume_all = True
-            tokens = tokenize(value, "*(,)")
+            tokens = tokenize(value, "*(,)\n")
         else:
             consume_all = False
             tokens = value
@@ -409,6 +409,9 @@ class Language(object):
         level = 0
         calls: list[bool] = []  # does the open bracket follow an operator?
         while token := next(tokens, None):
+            if token == "\n":
+                # a line break is just whitespace inside a type
+                continue
             if token == "(":
                 calls.append(isinstance(stack[-1], (TypeOperator, TypeAlias)))
                 stack.append(None)
